@@ -44,12 +44,26 @@ var engWatchdogs int
 // ------------------------------------------------------------------ store: durable log + folds
 
 type engStore struct {
-	mu    sync.Mutex
-	logs  []*ledger.ChainedLog // durable, in insertion order, across commander generations
-	ameta map[string]metadata.Metadata
-	gate  func(logs []*ledger.ChainedLog) error // scheduler gate; nil = pass
-	reads int
-	note  func(ctx context.Context, e J) // records a store read in the trace of the current schedule
+	mu       sync.Mutex
+	logs     []*ledger.ChainedLog // durable, in insertion order, across commander generations
+	ameta    map[string]metadata.Metadata
+	gate     func(logs []*ledger.ChainedLog) error // scheduler gate; nil = pass
+	reads    int
+	note     func(ctx context.Context, e J) // records a store read in the trace of the current schedule
+	failRead int                            // > 0: the failRead-th keyed lookup (idempotency key / reference) answers a transient error
+}
+
+var errTransient = fmt.Errorf("injected transient store error")
+
+func (st *engStore) readFault(ctx context.Context, what string) bool {
+	if st.failRead > 0 {
+		st.failRead--
+		if st.failRead == 0 {
+			st.rec(ctx, J{"store": "fault", "what": what})
+			return true
+		}
+	}
+	return false
 }
 
 func (st *engStore) rec(ctx context.Context, e J) {
@@ -184,6 +198,9 @@ func (st *engStore) GetLastTransaction(ctx context.Context) (*ledger.ExpandedTra
 func (st *engStore) ReadLogWithIdempotencyKey(ctx context.Context, key string) (*ledger.ChainedLog, error) {
 	st.mu.Lock()
 	defer st.mu.Unlock()
+	if st.readFault(ctx, "ik") {
+		return nil, errTransient
+	}
 	for _, l := range st.logs {
 		if l.IdempotencyKey == key {
 			st.rec(ctx, J{"store": "ik", "key": key, "found": l.ID.String()})
@@ -197,6 +214,9 @@ func (st *engStore) ReadLogWithIdempotencyKey(ctx context.Context, key string) (
 func (st *engStore) GetTransactionByReference(ctx context.Context, ref string) (*ledger.ExpandedTransaction, error) {
 	st.mu.Lock()
 	defer st.mu.Unlock()
+	if st.readFault(ctx, "ref") {
+		return nil, errTransient
+	}
 	for _, t := range st.txs() {
 		if t.Reference == ref {
 			st.rec(ctx, J{"store": "ref", "ref": ref, "found": true})
@@ -497,6 +517,7 @@ type engReq struct {
 	Key    string `json:"key"`
 	Val    string `json:"val"`
 	TS     int64  `json:"ts"`
+	Sends  int    `json:"sends"` // > 1: the script has this many sends (source -> m0, m1, …), one transaction with many postings
 }
 
 func (r engReq) script() ledger.RunScript {
@@ -516,7 +537,13 @@ func (r engReq) script() ledger.RunScript {
 	if r.Over != nil {
 		od = fmt.Sprintf(" allowing overdraft up to [USD %d]", *r.Over)
 	}
-	fmt.Fprintf(&sb, "send [USD %d] (\n  source = %s%s\n  destination = @%s\n)\n", r.Amount, src, od, r.Dst)
+	if r.Sends > 1 {
+		for i := 0; i < r.Sends; i++ {
+			fmt.Fprintf(&sb, "send [USD %d] (\n  source = %s%s\n  destination = @m%d\n)\n", r.Amount+int64(i), src, od, i)
+		}
+	} else {
+		fmt.Fprintf(&sb, "send [USD %d] (\n  source = %s%s\n  destination = @%s\n)\n", r.Amount, src, od, r.Dst)
+	}
 	rs := ledger.RunScript{Script: ledger.Script{Plain: sb.String(), Vars: vars}, Reference: r.Ref, Metadata: metadata.Metadata{}}
 	if r.TS != 0 {
 		rs.Timestamp = ledger.Time{Time: time.UnixMicro(r.TS).UTC()}
@@ -540,7 +567,7 @@ var engVisible = map[string]bool{"start": true, "ik-lookup": true, "ref-lookup":
 	"chain": true, "handoff": true, "commit": true, "wait": true, "done": true, "revert-lookup": true, "lock-granted": true, "resolve": true}
 
 func runEngineSchedule(reqs []engReq, funding [][]string, ameta [][]string, plan engPlan) (out J) {
-	st := &engStore{ameta: map[string]metadata.Metadata{}}
+	st := &engStore{ameta: map[string]metadata.Metadata{}, failRead: plan.FailRead}
 	for _, m := range ameta {
 		if st.ameta[m[0]] == nil {
 			st.ameta[m[0]] = metadata.Metadata{}
@@ -614,13 +641,16 @@ func runEngineSchedule(reqs []engReq, funding [][]string, ameta [][]string, plan
 	crashed := []int{}
 	lastActor := -2
 	choices, counts := []int{}, []int{}
+	cancels := map[int]context.CancelFunc{}
 
 	start := func(i int) {
 		rq := reqs[i]
 		s.setResumeCh(i)
 		s.dry[i] = rq.Dry
 		s.actorGen[i] = s.gen
-		ctx := verifhook.With(context.WithValue(ctx0, engActorKey{}, i), s, i)
+		cctx, cancel := context.WithCancel(context.WithValue(ctx0, engActorKey{}, i))
+		cancels[i] = cancel
+		ctx := verifhook.With(cctx, s, i)
 		c := cmd
 		s.expect++
 		go func() {
@@ -773,6 +803,35 @@ func runEngineSchedule(reqs []engReq, funding [][]string, ameta [][]string, plan
 				plan.Crash = -2
 				doCrash()
 				break // the phase is over: its requests never answer
+			}
+			if plan.Cancel > 0 && step >= plan.Cancel { // the caller of one request that waits for persistence goes away
+				var ws []int
+				for w := range s.waiting {
+					ws = append(ws, w)
+				}
+				sort.Ints(ws)
+				if len(ws) > 0 {
+					plan.Cancel = 0
+					w := ws[0]
+					s.mu.Lock()
+					s.trace = append(s.trace, J{"cancel": w})
+					s.mu.Unlock()
+					cancels[w]()
+					// on the unchanged code a waiting request ignores its context; a request that honours it finishes now:
+					// give it a moment to show up, without making the passing path depend on it
+					select {
+					case e := <-s.arrive:
+						s.arrive <- e
+						s.mu.Lock()
+						if s.waiting[w] {
+							delete(s.waiting, w)
+							s.expect++
+						}
+						s.mu.Unlock()
+						waitQuiet()
+					case <-time.After(30 * time.Millisecond):
+					}
+				}
 			}
 			var enabled []int
 			for i := range reqs {
@@ -982,6 +1041,10 @@ func genEngine(r *rng, n int, tier string, emit func(J)) {
 				pl["crash"] = g.n(12 * nReq)
 			} else if crashes && p >= nPlans/2 && g.p(30) {
 				pl["fail"] = g.n(2)
+			} else if crashes && g.p(20) {
+				pl["fail_read"] = 1 + g.n(4)
+			} else if crashes && g.p(25) {
+				pl["cancel"] = 1 + g.n(10*nReq)
 			}
 			plans = append(plans, pl)
 		}
@@ -1028,9 +1091,17 @@ func genEngine(r *rng, n int, tier string, emit func(J)) {
 			q := create(g, 1, g.pick(accts), "dave", 10)
 			q["ref"] = "ref-x"
 			reqs = append(reqs, q)
-		case 2: // racing reverts of one transaction (a funding one or one created first)
-			reqs = append(reqs, create(g, 0, "alice", "bob", 30))
+		case 2: // racing reverts of one transaction (a funding one or one created first, possibly a long one)
+			first := create(g, 0, "alice", "bob", 30)
+			if g.p(50) {
+				first = create(g, 0, "world", "bob", 1)
+				first["sends"] = 2 + g.n(19)
+			}
+			reqs = append(reqs, first)
 			t := g.n(4)
+			if first["sends"] != nil {
+				t = 3
+			}
 			k := 2 + g.n(2)
 			for i := 0; i < k; i++ {
 				reqs = append(reqs, J{"kind": "revert", "phase": 1, "dry": false, "ik": "", "ref": "", "target": t, "force": g.p(30)})
